@@ -102,6 +102,8 @@ func judgeE2E(c *core.Ctx, res []e2eShard, structural map[string]bool) {
 		}
 
 		c.AddCount("evaluations", int64(r.sum.Steps))
+		c.AddCount("distinct_nontrivial", int64(r.sum.Accepted))
+		addTraceSamples(c, r.trace)
 		c.AddCount("scenarios", int64(r.sum.Scenarios))
 		c.AddTLC("validate", r.tr)
 
@@ -139,18 +141,20 @@ func judgeE2E(c *core.Ctx, res []e2eShard, structural map[string]bool) {
 			c.Inconclusive("shard %d: TLC validation did not complete (err=%q timeout=%v, output kept in %s)", r.idx, r.tr.ErrorText, r.tr.TimedOut, keep)
 		default:
 			c.AddCount("traces_validated_against_impl", 1)
+		}
+	}
+}
 
-			if r.idx == 0 {
-				for _, n := range []int{2, 3, 5} {
-					if ln := readLine(r.trace, n); ln != "" {
-						var v interface{}
-						if json.Unmarshal([]byte(trunc2(ln, 6000)), &v) == nil {
-							c.AddSample(v)
-						} else {
-							c.AddSample(trunc(ln, 1500))
-						}
-					}
-				}
+// addTraceSamples copies a few recorded steps into the evidence (AddSample keeps the first eight).
+func addTraceSamples(c *core.Ctx, trace string) {
+	for _, n := range []int{2, 3} {
+		if ln := readLine(trace, n); ln != "" {
+			var v map[string]interface{}
+			if len(ln) < 20000 && json.Unmarshal([]byte(ln), &v) == nil {
+				delete(v, "dp") // the table dump is large; the request and the responses show what a step looks like
+				c.AddSample(v)
+			} else {
+				c.AddSample(trunc(ln, 1500))
 			}
 		}
 	}
